@@ -3,6 +3,7 @@ import itertools
 import re
 from engine import flow as fl, ru, paths as pa, expr
 from rules import shared
+from rules import C16 as _c16
 
 EXPLANATION = (
     "Who-may-write inventory, def-use rules and small-domain evaluation of extracted cursor code: (a) every call of "
@@ -20,7 +21,7 @@ EXPLANATION = (
     "small (len, pos, cnt) states against the reference cursor (advance min(cnt, len-pos) in the header, the rest in the "
     "payload), so partial writes of any size re-emit or skip no header byte. The transport taking what it was given "
     "is trusted (C17 for Quinn).")
-RULES = "C14-a who may write what (A10/A4); C14-b declared lengths (A4); C14-c reserved identifiers (A6/A11); C14-d buffer bound (A17); C14-e header/payload cursor (extracted-expression evaluation)"
+RULES = "C14-a who may write what (A10/A4); C14-b declared lengths (A4); C14-c reserved identifiers (A6/A11); C14-d buffer bound (A17); C14-e header/payload cursor (extracted-expression evaluation); shared: varint form tables under C14-b"
 
 FR = "h3::proto::frame::Frame"
 WRITE = "h3::stream::write"
@@ -32,6 +33,8 @@ def vsize(x):
 
 
 def run(ctx):
+    # every length and identifier h3 writes goes through VarInt::size/encode: the form tables are shared with C16
+    _c16.varint_form_tables(ctx, "C14-b")
     prog = ctx.prog
     consts = prog.consts
     # ------------------------------------------------------------------ C14-a
